@@ -635,8 +635,10 @@ class StandardScalerStub:
     """population mean / variance per column, exact zeros of scale_ replaced by one (sklearn's
     _handle_zeros_in_scale); single fit only"""
 
-    def __init__(self, **kw):
-        pass
+    def __init__(self, copy=True, with_mean=True, with_std=True, **kw):
+        if not (with_mean and with_std):
+            raise Unsupported('StandardScaler without centring / scaling')
+        self.copy = copy
 
     def __deepcopy__(self, memo):
         c = StandardScalerStub()
@@ -668,6 +670,12 @@ class StandardScalerStub:
         raise Unsupported('StandardScaler.partial_fit (running standardisation) is outside the model')
 
     def transform(self, X, copy=None):
+        copy = self.copy if copy is None else copy
+        from .npx import SymArray
+        if not copy and isinstance(X, SymArray):
+            # sklearn standardises a float64 array in place when copy=False (SymArray stands for a float64 array)
+            X[...] = (np.asarray(X, dtype=object) - self.mean_) / self.scale_
+            return X
         X = np.asarray(X, dtype=object)
         return (X - self.mean_) / self.scale_
 
